@@ -39,6 +39,6 @@ Next == Reset \/ Obs \/ Inject \/ Skip
 Spec == Init /\ [][Next]_vars
 AtEnd == l = NRec + 1
 Brief == IF AtEnd THEN [l |-> l, bad |-> bad, ninj |-> ninj, ncmp |-> ncmp] ELSE [l |-> l]
-C15 == AtEnd => \A b \in bad : b[1] # "C15"
+C15 == AtEnd => NoneFor(bad, "C15")
 Report == AtEnd => PrintT(<<"TWIN-REPORT", ninj, ncmp>>)
 ====================================================================================
